@@ -225,13 +225,12 @@ def generate():
                         for (f, fn, k, r) in users))
     L.append("]")
     L.append("")
-    L.append("/-- back-end dependent code that is known and accounted for:")
-    L.append("* the ProWizard memory fast path (`pw_check`): reads the same bytes directly instead of copying them;")
-    L.append("* a format *test* that asks for the handle type (today `mfp_test`): recognition then depends on the")
-    L.append("  entry point — reported by the check as finding `entry:<fmt>:file-handle`, not hidden. -/")
+    L.append("/-- back-end dependent code that is known and accounted for: only the ProWizard memory fast path")
+    L.append("(`pw_check`), which reads the same bytes directly instead of copying them.  (`mfp_test` used to ask for")
+    L.append("the handle type — finding `entry:mfp:file-handle`, repaired; a format test or loader doing so again")
+    L.append("breaks `hioUsers_known`.) -/")
     L.append("def allowed (u : HioUser) : Bool :=")
-    L.append("  (u.kind == .underlyingMemory && u.role == .other && u.file == \"loaders/prowizard/prowiz.c\")")
-    L.append("  || (u.kind == .handleType && u.role == .formatTest && u.file == \"loaders/mfp_load.c\")")
+    L.append("  u.kind == .underlyingMemory && u.role == .other && u.file == \"loaders/prowizard/prowiz.c\"")
     L.append("")
     L.append("/-- \"loaders are `StreamProg`s\" is a checked premise with named exceptions: a new place that looks")
     L.append("inside a handle breaks this proof. -/")
